@@ -328,7 +328,7 @@ def run(ctx):
     window = None
     for b_, i_, st_ in rrd.assigns():
         rv = st_["rv"]
-        if rv["k"] != "bin" or rv["op"] != "Eq":
+        if rv["k"] != "bin" or rv["op"] not in ("Eq", "Ne"):
             continue
         for xa, xb in ((rv["a"], rv["b"]), (rv["b"], rv["a"])):
             stop_l = A.root_local(rrd, xa)
